@@ -98,6 +98,8 @@ def main():
     t0 = time.time()
     chk = P.get(pid)
     workdir = os.path.join(lib.WORK, pid)
+    import shutil
+    shutil.rmtree(workdir, ignore_errors=True)
     os.makedirs(workdir, exist_ok=True)
     ev = dict(property_id=pid, tier=tier, seed=seed, level='proof', wall_s=0.0, violations=0,
               coverage=dict(trusted_base=TRUSTED, checker_cmd='make -C coq && coqc -Q theories MQ theories/Properties/%s.v (Print Assumptions audited); differential run bin/check.py %s' % (pid, pid)),
@@ -219,8 +221,13 @@ def finish(ev, t0, pid, rc, obligations=None, discharged=None):
         cov.setdefault('discharged', discharged)
     cov.setdefault('obligations', 1)
     cov.setdefault('discharged', 0)
-    os.makedirs(os.path.join(lib.ROOT, 'evidence'), exist_ok=True)
-    json.dump(ev, open(os.path.join(lib.ROOT, 'evidence', pid + '.json'), 'w'), indent=1)
+    evdir = os.environ.get('VERIF_EVIDENCE_DIR') or os.path.join(lib.ROOT, 'evidence')
+    os.makedirs(evdir, exist_ok=True)
+    json.dump(ev, open(os.path.join(evdir, pid + '.json'), 'w'), indent=1)
+    # shard files are large; keep them only when something went wrong
+    if rc == 0:
+        import shutil
+        shutil.rmtree(os.path.join(lib.WORK, pid), ignore_errors=True)
 
 
 def replay(path):
